@@ -214,6 +214,9 @@ impl R {
     #[verifier::external_body]
     pub fn is_sign_negative(self) -> (b: bool) ensures self@ > 0real ==> !b, self@ < 0real ==> b { unimplemented!() }
     // transcendental functions: uninterpreted (nothing is known about their values)
+    // every R is a (finite) real: NaN / infinity are not modelled
+    #[verifier::external_body]
+    pub fn is_finite(self) -> (b: bool) ensures b { unimplemented!() }
     #[verifier::external_body]
     pub fn log2(self) -> (r: R) ensures r@ == rlog2(self@) { unimplemented!() }
     #[verifier::external_body]
